@@ -95,6 +95,17 @@ def repo_headers_hash():
     return _repo_hash
 
 
+def release_flags(tag):
+    """half of the build variants of a check are release builds (NDEBUG: GUDHI_CHECK and assert compiled out), chosen by a CRC
+    of the variant tag and the parity of VERIF_SEED (so that two consecutive seeds cover both builds of every variant)"""
+    import zlib
+    try:
+        seed = int(os.environ.get("VERIF_SEED", "1"))
+    except ValueError:
+        seed = 1
+    return ["-DNDEBUG"] if (zlib.crc32(str(tag).encode()) + seed) % 2 == 0 else []
+
+
 def include_flags():
     fl = []
     src = os.path.join(REPO, "src")
@@ -276,6 +287,8 @@ class Ctx:
     def build_harness(self, src, tag="", flags=(), opt="-O1", timeout=1500, std="-std=c++17", libs=("-ltbb", "-lgmpxx", "-lgmp", "-lpthread")):
         """compile harness/<src> against /repo's current working tree; cached by source+flags+headers hash"""
         spath = os.path.join(ROOT, "harness", src)
+        if os.environ.get("VERIF_NDEBUG") == "1" and "-DNDEBUG" not in flags:      # experiment switch: everything as a release build
+            flags = list(flags) + ["-DNDEBUG"]
         deps = [spath] + [os.path.join(ROOT, "harness", f) for f in os.listdir(os.path.join(ROOT, "harness")) if f.endswith(".h")]
         key = hashlib.sha256((sha256_files(deps) + repo_headers_hash() + " ".join(flags) + opt + std).encode()).hexdigest()[:16]
         out_bin = os.path.join(BIN, "%s%s_%s" % (os.path.splitext(src)[0], ("_" + tag) if tag else "", key))
